@@ -22,6 +22,10 @@ structure Group where
   parent : Bytes
   height : Nat
   create : Nat
+  /-- `Header.DismissHeight` (block height at which the group stops working) -/
+  dismiss : Nat := 0
+  /-- `Members` (miner ids) -/
+  members : List Bytes := []
   deriving DecidableEq, Repr, Inhabited
 
 /-- A stored value: the JSON of a group, a group id (under `gcurrent` / a height
@@ -104,6 +108,8 @@ inductive AddRes where
   | ok | exists_ | noParent | preMismatch
   /-- `save` returned the error of its batch write (only under an injected write fault) -/
   | writeErr
+  /-- `consensusHelper.CheckGroup` refused the group (evaluated after the duplicate-id check) -/
+  | checkFail
   deriving DecidableEq, Repr
 
 def mirrorInsert (m : List Bytes) (id : Bytes) : List Bytes := if id ∈ m then m else id :: m
@@ -375,5 +381,105 @@ def rmLoopF (h : Nat) : Nat → Chain → Option Nat → Chain
     else c
 
 def rmToF (c : Chain) (h : Nat) (j : Nat) : Chain := rmLoopF h (topHeight c) c (some j)
+
+/-! ### Faults of the OTHER store: a statement on the sqlite `groupIndex` fails
+
+`save` calls `mysql.InsertGroup(group)` and `remove` calls `mysql.DeleteGroup(group.Id)` AFTER the
+LevelDB writes and the in-memory update, and `panic(err)` when the statement fails: the process
+dies with store and memory already advanced and the mirror row not written / not removed. A fork
+switch (`removeFromCommonAncestor`) is thereby cut after the removal whose statement failed. -/
+
+inductive SqlKind where
+  | ins | del
+  deriving DecidableEq, Repr
+
+/-- The statement that fails: an insert of / a delete for the row of group `id`. -/
+structure SqlFault where
+  kind : SqlKind
+  id : Bytes
+  deriving DecidableEq, Repr
+
+/-- `save` under a failing insert: the chain as `save` leaves it, and whether it panicked. -/
+def saveS (c : Chain) (g : Group) (f : SqlFault) : Chain × Bool :=
+  if f.kind = .ins ∧ f.id = g.id then ({ save c g with mirror := c.mirror }, true) else (save c g, false)
+
+def addGroupS (c : Chain) (g : Group) (f : SqlFault) : AddRes × Chain × Bool :=
+  match addCheck c g with
+  | .ok => let r := saveS c g f; (.ok, r.1, r.2)
+  | r => (r, c, false)
+
+/-- `remove` under a failing delete: (result, chain, panicked). -/
+def removeS (c : Chain) (g : Group) (f : SqlFault) : Bool × Chain × Bool :=
+  match getGroupById c.disk g.pre with
+  | none => (false, c, false)
+  | some _ =>
+    if f.kind = .del ∧ f.id = g.id then (true, { (remove c g).2 with mirror := c.mirror }, true)
+    else (true, (remove c g).2, false)
+
+/-- The removal loop; stops at the removal that panics. -/
+def rmLoopS (h : Nat) (f : SqlFault) : Nat → Chain → Chain × Bool
+  | 0, c => (c, false)
+  | t + 1, c =>
+    if t + 1 > h then
+      match getGroupByHeight c.disk (t + 1) with
+      | none => rmLoopS h f t c
+      | some g =>
+        let r := removeS c g f
+        if r.2.2 then (r.2.1, true) else rmLoopS h f t r.2.1
+    else (c, false)
+
+def rmToS (c : Chain) (h : Nat) (f : SqlFault) : Chain × Bool := rmLoopS h f (topHeight c) c
+
+/-! ### The header rewrite of `AddGroup`, group availability, and the fork switch -/
+
+/-- What `AddGroup` does to the header of an accepted group before `save`:
+    `DismissHeight = CreateHeight + GetGroupWorkDuration()` (uint64). `dur` is that duration
+    (a configuration value the harness reads from the node and passes in). The dismiss height
+    a sender put into the group is overwritten; it does not even travel (`GroupToPbHeader`). -/
+def prepare (dur : Nat) (g : Group) : Group := { g with dismiss := (g.create + dur) % u64 }
+
+def addGroupD (dur : Nat) (c : Chain) (g : Group) : AddRes × Chain := addGroup c (prepare dur g)
+
+/-- `availableGroupsAt(h)`: walk the iterator from `last`; a group whose `DismissHeight > h` is
+    taken; at the FIRST group that is not, `GetGroupByHeight(0)` (the genesis group, possibly nil)
+    is appended instead and the walk stops — older groups are not looked at. -/
+def availWalk (d : Store) (h : Nat) : Nat → Group → List (Option Group)
+  | 0, _ => []
+  | fuel + 1, g =>
+    if g.dismiss > h then
+      some g :: (match getGroupById d g.pre with
+                 | none => []
+                 | some p => availWalk d h fuel p)
+    else [getGroupByHeight d 0]
+
+def availableAt (c : Chain) (h : Nat) : List (Option Group) :=
+  availWalk c.disk h (c.disk.length + 1) c.last
+
+/-- `GetAvailableGroupsByMinerId(h, m)`: the available groups that list `m` as a member
+    (`none` = the real code dereferences a nil genesis group and panics). -/
+def availableByMiner (c : Chain) (h : Nat) (m : Bytes) : Option (List Group) :=
+  (availableAt c h).foldr (fun og acc =>
+    match og, acc with
+    | some g, some l => some (if m ∈ g.members then g :: l else l)
+    | _, _ => none) (some [])
+
+/-- `AddGroup` of each group in turn, stopping at the first one that is not accepted
+    (the loop of `groupChainFork.triggerOnChain`). -/
+def addAll (dur : Nat) : List Group → Chain → Chain × Bool
+  | [], c => (c, true)
+  | g :: t, c =>
+    match addGroupD dur c g with
+    | (.ok, c') => addAll dur t c'
+    | (_, c') => (c', false)
+
+/-- `groupChainFork.triggerOnChain` on a fresh fork: `removeFromCommonAncestor(ancestor)` with
+    `ancestor.GroupHeight = h`, then `AddGroup` of the fork's groups in height order. -/
+def forkSwitch (dur : Nat) (c : Chain) (h : Nat) (gs : List Group) : Chain × Bool :=
+  addAll dur gs (rmTo c h)
+
+/-- `AddGroup` of a group the consensus check refuses: `exists` wins over the refusal (the duplicate-id
+    check comes first), nothing is written. `AddGroup(nil)` is refused before anything is read. -/
+def addGroupRefused (c : Chain) (g : Group) : AddRes × Chain :=
+  if shas c.disk g.id then (.exists_, c) else (.checkFail, c)
 
 end Rangers.Model.GroupChain
